@@ -23,6 +23,19 @@ fn main() {
     if args.len() < 3 {
         usage();
     }
+    {
+        // hard wall limit: a check that does not finish is a machinery failure, never a verdict
+        let thorough = args.get(2).map(|t| t == "thorough").unwrap_or(false);
+        let limit = std::env::var("VERIF_HARD_LIMIT_S")
+            .ok()
+            .and_then(|s| s.parse::<u64>().ok())
+            .unwrap_or(if thorough { 7200 } else { 600 });
+        std::thread::spawn(move || {
+            std::thread::sleep(std::time::Duration::from_secs(limit));
+            println!("MACHINERY-ERROR: the check did not finish within its hard wall limit of {limit} s (possibly a non-terminating call outside a step budget)");
+            std::process::exit(2);
+        });
+    }
     let code = match args[1].as_str() {
         "replay" => {
             let doc: serde_json::Value = std::fs::read_to_string(&args[2])
